@@ -48,7 +48,26 @@ def tasks(tier, seed):
     shards = 32 if tier == "quick" else 128
     t = [(MOD, "hyp", (n // shards, seed * 1_000_003 + i, tier)) for i in range(shards)]
     t += [(MOD, "singles", (i, 8, tier)) for i in range(8)]
+    t += [(MOD, "pairs", (i, 32, tier)) for i in range(32)]
     return t
+
+
+def pairs(acc, shard, nshards, tier):
+    """Two atoms on the Python-version variables (resp. one string variable) joined by and / or in one text:
+    the parse-time merge of every atom pair, judged by packaging."""
+    acc.exhaustive_layers.add("L1-atom-pair-texts")
+    mod = sys.modules[MOD]
+    import itertools
+
+    A = c02.py_atoms(tier)
+    S = c02.str_atoms(tier)
+    i = 0
+    for pool in (A, S):
+        for x, y in itertools.product(pool, repeat=2):
+            for op in ("and", "or"):
+                i += 1
+                if i % nshards == shard:
+                    harness.process(mod, acc, "text", {"tree": [op, [["atom", x], ["atom", y]]], "context": "metadata"}, "L1-atom-pair-texts")
 
 
 def single_atoms(tier):
